@@ -468,4 +468,6 @@ def main(argv=None):
         print(f'HARNESS-ERROR property={a.prop.upper()}:\n{traceback.format_exc()[-3000:]}', flush=True)
         rc = 2
     sys.stdout.flush()
-    sys.exit(rc)
+    sys.stderr.flush()
+    # threads of the code under test may be stuck for good (that is what some checks look for): never join them
+    os._exit(rc)
